@@ -8,6 +8,9 @@
 
 #pragma once
 
+#if defined(PIKA_VERIF)
+# include <pika/config.hpp>
+#endif
 #include <pika/assert.hpp>
 #include <pika/concurrency/cache_line_data.hpp>
 #include <pika/concurrency/spinlock.hpp>
@@ -85,11 +88,17 @@ namespace pika {
         {
             PIKA_ASSERT(update >= 0);
 
+#if defined(PIKA_VERIF)
+            PIKA_VERIF_POINT(911, this);
+#endif
             std::ptrdiff_t new_count = (counter_ -= update);
             PIKA_ASSERT(new_count >= 0);
 
             if (new_count == 0)
             {
+#if defined(PIKA_VERIF)
+                PIKA_VERIF_POINT(912, this);
+#endif
                 std::unique_lock l(mtx_.data_);
                 notified_ = true;
 
@@ -100,6 +109,9 @@ namespace pika {
                 // re-lock the mutex while exiting from condition_variable::wait
                 while (cond_.data_.notify_one(std::move(l), execution::thread_priority::boost))
                 {
+#if defined(PIKA_VERIF)
+                    PIKA_VERIF_POINT(913, this);
+#endif
                     l = std::unique_lock(mtx_.data_);
                 }
             }
@@ -107,7 +119,13 @@ namespace pika {
 
         /// Returns:        With very low probability false. Otherwise
         ///                 counter == 0.
-        bool try_wait() const noexcept { return counter_.load(std::memory_order_acquire) == 0; }
+        bool try_wait() const noexcept
+        {
+#if defined(PIKA_VERIF)
+            PIKA_VERIF_POINT(915, this);
+#endif
+            return counter_.load(std::memory_order_acquire) == 0;
+        }
 
         /// If counter_ is 0, returns immediately. Otherwise, blocks the
         /// calling thread at the synchronization point until counter_
@@ -117,6 +135,9 @@ namespace pika {
         ///
         void wait() const
         {
+#if defined(PIKA_VERIF)
+            PIKA_VERIF_POINT(914, this);
+#endif
             std::unique_lock l(mtx_.data_);
             while (counter_.load(std::memory_order_relaxed) > 0 || !notified_)
             {
